@@ -39,6 +39,8 @@ def gen_spec(seed: int, idx: int, tier: str):
     if inp.get("text") and rng.random() < 0.06:
         inp["text"] = inp["text"].replace("\n", "\r\n")
         inp["tags"] = list(inp.get("tags", [])) + ["crlf"]
+    if not dst:
+        cliworld.byte_variants(rng_for(PROP, seed, f"bytes-{idx}"), inp)
     spec = {"files": {}, "decoys": {}, "procs": [], "prop": PROP, "idx": idx}
     cliworld.place_inputs(rng, [inp], spec)
     cliworld.add_decoys(rng, spec, 0.4, ["p0"])
@@ -117,13 +119,17 @@ def expectation(inp: dict, ps: dict, t0: float, tz: str | None = None) -> dict:
         return {"exit": 1, "stdout": ""}
     text = inp["text"]
     stdin = ps["channel"].startswith("stdin")
+    if kind == "nonutf8":
+        # the bytes are not text: "unreadable input" (1) and "report generation failed" (2) both describe it
+        return {"exit": 2, "alt_exit": 1, "stdout": "", "why": "input is not valid UTF-8"}
     if kind == "empty":
         if stdin or text == "":
             return {"exit": 1, "stdout": ""}
     if stdin and not text.strip():
         return {"exit": 1, "stdout": ""}
     clocky = "uses-clock-macro" in inp.get("tags", []) or "no-now" in inp.get("tags", [])
-    lv = libexpect.library_view(text, t0 if clocky else None, tz=tz if clocky else None)
+    # plan reads the project in text mode (universal newlines): CR and CRLF are line ends for the CLI on every channel
+    lv = libexpect.library_view(text.replace("\r\n", "\n").replace("\r", "\n"), t0 if clocky else None, tz=tz if clocky else None)
     if "harness" in lv or "hang" in lv:
         return {"harness": str(lv)}
     if "exc" in lv:
@@ -194,7 +200,7 @@ def oracles(spec: dict, inputs: list[dict], r: dict) -> list[dict]:
         faults = p["faults"]
         if not faults:
             # ---------------- fault-free: the contract applies verbatim
-            if code != exp["exit"]:
+            if code != exp["exit"] and code != exp.get("alt_exit", exp["exit"]):
                 V.append(_v("exit", f"{inp['kind']}|want{exp['exit']}|got{code}", f"{ps['argv']} on {inp['kind']} input exited {code}, contract says {exp['exit']} ({exp.get('why', '')}); stderr: {err[-200:]!r}"))
                 continue
             if code != 0:
@@ -248,6 +254,7 @@ def oracles(spec: dict, inputs: list[dict], r: dict) -> list[dict]:
                 allowed |= {0, 2}
             if exp["exit"] != 0:
                 allowed.add(exp["exit"])
+                allowed.add(exp.get("alt_exit", exp["exit"]))
         if code not in allowed:
             V.append(_v("exit", f"faulted|{'+'.join(sorted({f['kind'] for f in faults}))}|got{code}", f"{ps['argv']} exited {code} after {faults}; allowed {sorted(allowed)}; stderr {err[-200:]!r}"))
         # first fault on the first open/read of a present input: contract says 1
